@@ -896,3 +896,104 @@ func (cfg *LifeCfg) GenFault(t *rapid.T, s *Sim) *Action {
 	a.Faults = []FaultEntry{{DataId: o.DataId, OrderId: o.Id, ShardId: sh.Id, CommitId: "reported-commit", Provider: a.Target}}
 	return a
 }
+
+// GenForceAfterRenew steers towards "the latest version has been renewed, then it is force-pushed":
+// it returns whichever step is missing for the most advanced model (second version, renewal of the
+// latest version, force-push). Completions come from the ordinary menu.
+func (cfg *LifeCfg) GenForceAfterRenew(t *rapid.T, s *Sim) *Action {
+	var two, one []modeltypes.Metadata
+	for _, m := range sortedMetas(s.Last) {
+		if m.Status != modeltypes.MetaComplete {
+			continue
+		}
+		if len(m.Commits) >= 2 {
+			two = append(two, m)
+		} else if len(m.Commits) == 1 {
+			one = append(one, m)
+		}
+	}
+	build := func(m modeltypes.Metadata, op uint32) *Action {
+		gw := rapid.SampledFrom(cfg.Providers).Draw(t, "gateway")
+		a := NewAction("store", gw)
+		a.Owner = s.didIdx(m.Owner)
+		if a.Owner < 0 {
+			return nil
+		}
+		a.PropProv, a.DataId = gw, m.DataId
+		cfg.nextCommit++
+		a.Commit = latestCommit(m) + "|" + CommitN(cfg.nextCommit)
+		a.Alias, a.Cid, a.Op = m.Alias, CidB, op
+		a.Size = cfg.genSize(t)
+		a.Replica = int32(rapid.IntRange(1, 2).Draw(t, "replica"))
+		a.Duration = cfg.genDur(t)
+		a.Timeout = int32(rapid.IntRange(cfg.TimeoutLo, cfg.TimeoutHi).Draw(t, "timeout"))
+		return a
+	}
+	if len(two) == 0 {
+		if len(one) == 0 {
+			return nil
+		}
+		return build(one[rapid.IntRange(0, len(one)-1).Draw(t, "model")], 1)
+	}
+	m := two[rapid.IntRange(0, len(two)-1).Draw(t, "model")]
+	renewed := false
+	for _, oid := range m.Orders {
+		if o, ok := s.Last.Orders[oid]; ok && o.Operation == 3 {
+			renewed = true
+		}
+	}
+	if !renewed || rapid.IntRange(0, 3).Draw(t, "renewAgain") == 0 {
+		gw := rapid.SampledFrom(cfg.Providers).Draw(t, "gateway")
+		a := NewAction("renew", gw)
+		a.Owner = s.didIdx(m.Owner)
+		if a.Owner < 0 {
+			return nil
+		}
+		a.Data = []string{m.DataId}
+		a.Duration = cfg.genDur(t)
+		a.Timeout = 10
+		return a
+	}
+	s.Label("force-push-after-renew-tried")
+	return build(m, 2)
+}
+
+// GenSettleAfterMigration steers towards "a shard handed over by migration is settled early":
+// start a migration, let the new provider complete it, then terminate or force-push the model
+// while the migrated shard is still being paid.
+func (cfg *LifeCfg) GenSettleAfterMigration(t *rapid.T, s *Sim) *Action {
+	for _, sh := range sortedShards(s.Last) {
+		if sh.From == "" {
+			continue
+		}
+		o, ok := s.orderListing(sh)
+		if !ok {
+			continue
+		}
+		ord := s.Last.Orders[o]
+		switch sh.Status {
+		case ordertypes.ShardMigrating:
+			if rapid.IntRange(0, 2).Draw(t, "wait") == 0 {
+				return nil // let some blocks pass first
+			}
+			c := NewAction("complete", s.acctOf(sh.Sp))
+			c.Order, c.Cid, c.Size = o, sh.Cid, sh.Size_
+			return c
+		case ordertypes.ShardCompleted:
+			m, ok := s.Last.Metas[ord.DataId]
+			if !ok || m.Status != modeltypes.MetaComplete {
+				continue
+			}
+			gw := rapid.SampledFrom(cfg.Providers).Draw(t, "gateway")
+			a := NewAction("terminate", gw)
+			a.Owner = s.didIdx(m.Owner)
+			if a.Owner < 0 {
+				continue
+			}
+			a.DataId = m.DataId
+			s.Label("settle-after-migration-tried")
+			return a
+		}
+	}
+	return cfg.GenMigrate(t, s)
+}
